@@ -59,3 +59,25 @@ reg("C07", c07_units,
     "bounded symbolic model checking: one sequence/sequence-rm edge through the real writeLinkEvent closure (validateDepSelf, validateDepKinds, hasCycle/isReachable) from an arbitrary well-formed store, applied by the real replay loop; the post-graph is checked for well-formed edges, absence of cycles up to the slot count, deps/rdeps mirroring and exactly-one-edge change.",
     ["L1 world stubs: loadGraph/appendEvents/getEventsPath replaced by a symbolic store (engine/world.go); withLock executed for real over syscall stubs",
      "slot ids are the constants ID0..IDn (sound by symmetry: ids are only compared, and any n distinct ids map order-preservingly onto them)"])
+
+
+# ---------------------------------------------------------------- C09
+def c09_units(tier):
+    n = "3" if tier == "quick" else "4"
+    stub = {"loop": 24, "rec": 4, "stubs": "hasCycle=zzHasCycleSpec"}
+    hs = ["c06.go", "c07.go", "c09.go"]
+    return [
+        Unit("select-vs-spec", hs, "zzC09_Select_N" + n, {"loop": 24}, bounds="N=%s items in any states / kinds / epic membership (incl. dangling)" % n),
+        Unit("prune-run", hs, "zzC09_PruneRun", stub, bounds="store of 3 items + 1 tombstone, acyclic well-formed edges; prune with and without --yes"),
+        Unit("tombstone-step", hs, "zzC09_TombstoneStep", stub, bounds="store of 2 items, 2 tombstones; ONE arbitrary event (any type string, any ids, malformed or not) applied by the real replay loop body"),
+    ] + [
+        Unit("pruned-id-" + c.lower(), hs, "zzC09_PrunedID_" + c, stub, bounds="store of 2 items, 2 tombstones; the command names a pruned id; all other arguments arbitrary")
+        for c in ("Set", "LinkFrom", "LinkTo", "Unlink", "Result")
+    ] + [
+        Unit("new-id-fresh", hs, "zzC09_NewIDFresh", stub, note="CUT: newShortID's retry loop assumed to succeed within 2 draws", bounds="store of 2 items and one pruned id; the random draw is a free symbolic string"),
+    ]
+
+
+reg("C09", c09_units,
+    "bounded symbolic model checking of selectPruneTargets against the statement's set definition, of runPrune (both modes) through the real lock/load/append path over a symbolic store, of the replay loop body for one arbitrary event from a store with tombstones (inductive step: pruned ids stay gone), and of every mutating entry point given a pruned id.",
+    ["L1 world stubs (symbolic store) as in C07; crypto/rand modelled as an arbitrary string per draw (shortID stub)"])
